@@ -1088,3 +1088,134 @@ func typeNamed(t types.Type, name string) bool {
 	}
 	return false
 }
+
+
+// forwardedStore: for a load of a struct field through base value B, return
+// the value of the unique store to the same field through the same SSA base
+// in this function, provided that store dominates the load and no
+// instruction on any path between them can write the field: another store
+// to it, or a call other than to callees known not to touch module heap
+// state (builtins, log, fmt, encoding/binary, sync/atomic) or to module functions that
+// (transitively through static calls, depth 3) contain no store to a field
+// of that name and make no dynamic call. nil when not provable.
+func forwardedStore(load *ssa.UnOp) ssa.Value {
+	fa, ok := load.X.(*ssa.FieldAddr)
+	if !ok {
+		return nil
+	}
+	fn := load.Parent()
+	var stores []*ssa.Store
+	Instrs(fn, func(in ssa.Instruction) {
+		if st, ok := in.(*ssa.Store); ok {
+			if fa2, ok := st.Addr.(*ssa.FieldAddr); ok && fa2.Field == fa.Field && types.Identical(fa2.X.Type(), fa.X.Type()) {
+				stores = append(stores, st)
+			}
+		}
+	})
+	if len(stores) != 1 {
+		return nil
+	}
+	st := stores[0]
+	if st.Addr.(*ssa.FieldAddr).X != fa.X || !InstrDominates(st, load) {
+		return nil
+	}
+	fv, _ := fieldOf(fa)
+	if fv == nil {
+		return nil
+	}
+	bad := ReachAvoiding(fn, st, func(in ssa.Instruction) bool { return in == ssa.Instruction(load) }, func(in ssa.Instruction) bool {
+		ci, ok := in.(ssa.CallInstruction)
+		if !ok {
+			return false
+		}
+		return mayWriteField(ci, fv.Name(), 3) && instrReaches(in, load)
+	})
+	if bad != nil {
+		return nil
+	}
+	return st.Val
+}
+
+func mayWriteField(ci ssa.CallInstruction, field string, depth int) bool {
+	if _, ok := ci.Common().Value.(*ssa.Builtin); ok {
+		return false
+	}
+	g := ci.Common().StaticCallee()
+	if g == nil {
+		return true
+	}
+	if g.Pkg != nil && g.Pkg.Pkg != nil {
+		switch g.Pkg.Pkg.Path() {
+		case "log", "fmt", "encoding/binary", "sync/atomic", "errors":
+			return false
+		}
+	}
+	if g.Blocks == nil || depth == 0 {
+		return true
+	}
+	w := false
+	Instrs(g, func(in ssa.Instruction) {
+		if w {
+			return
+		}
+		switch x := in.(type) {
+		case *ssa.Store:
+			if fv, _ := fieldOf(x.Addr); fv != nil && fv.Name() == field {
+				w = true
+			}
+		case ssa.CallInstruction:
+			if mayWriteField(x, field, depth-1) {
+				w = true
+			}
+		}
+	})
+	return w
+}
+
+
+// equivLoad: the dominator-most earlier load of the same field through the
+// same SSA base value such that no store to a field of that name and no call
+// that may write it lies on a path between the two loads; load itself when
+// there is none. Two such loads observe the same value (single goroutine).
+func equivLoad(load *ssa.UnOp) *ssa.UnOp {
+	fa, ok := load.X.(*ssa.FieldAddr)
+	if !ok {
+		return load
+	}
+	fv, _ := fieldOf(fa)
+	if fv == nil {
+		return load
+	}
+	fn := load.Parent()
+	best := load
+	Instrs(fn, func(in ssa.Instruction) {
+		l2, ok := in.(*ssa.UnOp)
+		if !ok || l2 == load || l2.Op != token.MUL {
+			return
+		}
+		fa2, ok := l2.X.(*ssa.FieldAddr)
+		if !ok || fa2.Field != fa.Field || fa2.X != fa.X || !InstrDominates(l2, load) {
+			return
+		}
+		if best != load && !InstrDominates(l2, best) {
+			return
+		}
+		bad := ReachAvoiding(fn, l2, func(i ssa.Instruction) bool { return i == ssa.Instruction(load) }, func(i ssa.Instruction) bool {
+			if !instrReaches(i, load) {
+				return false
+			}
+			switch x := i.(type) {
+			case *ssa.Store:
+				f3, _ := fieldOf(x.Addr)
+				return f3 != nil && f3.Name() == fv.Name()
+			case ssa.CallInstruction:
+				return mayWriteField(x, fv.Name(), 3)
+			}
+			return false
+		})
+		if bad == nil {
+			best = l2
+		}
+	})
+	return best
+}
